@@ -140,7 +140,7 @@ def struct_pack(ip, fmt, *args):
                 b = v[:n].ljust(n, b'\x00')
                 parts.append(ops.bytes_lit(b))
             else:
-                L = z3.Length(v.t)
+                L = ops.blen(v.t)
                 # exact length required by the model (padding/truncation of symbolic bytes is not modelled)
                 if not ip.ctx.branch(ops.sbool(L == n)):
                     raise Unsupported("struct 's' field with a symbolic length different from the field width")
@@ -199,6 +199,8 @@ def struct_unpack(ip, fmt, data):
         return tuple(Fraction(repr(x)) if isinstance(x, float) else x for x in r)
     n = ops.bytes_len(data)
     ip.ctx.raise_if(ops.compare('NotEq', n, total), 'struct.error', 'unpack requires a buffer of %d bytes' % total)
+    if ops.known_len(data.t) is None and len(ops.flat_chunks(data.t)) == 1:
+        ops.set_len(data.t, total)        # established on this path just now (registries are per path)
     out = []
     pos = 0
     for code, sz in fields:
@@ -232,10 +234,12 @@ def os_urandom(ip, n):
     t = ip.ctx.fresh('urandom', BytesSort)
     nt = ops.term(n, 'int')
     ip.ctx.raise_if(ops.sbool(nt < 0), 'ValueError', 'negative argument not allowed')
-    ip.ctx.assume(z3.Length(t) == nt)
     c = ops.const_int(n)
     if c is not None:
         ops.set_len(t, c)
+        ip.ctx.assume(z3.Length(t) == c)
+    else:
+        ops.set_len_term(t, nt)
     return Sym(t, 'bytes')
 
 
@@ -332,7 +336,7 @@ def _encrypt_gcm(ip, key, iv, aad, data):
              'dec_ok(k,iv,aad,c) => c = enc(k,iv,aad,dec(k,iv,aad,c)); len(enc(..,p)) = len(p)+16')
     k, i, a, d = ops.term(key), ops.term(iv), ops.term(aad), ops.term(data)
     ct = ENC(k, i, a, d)
-    ip.ctx.assume(z3.Length(ct) == z3.Length(d) + 16)
+    ops.set_len_term(ct, ops.blen(d) + 16)
     ip.ctx.assume(DEC_OK(k, i, a, ct))
     ip.ctx.assume(DEC(k, i, a, ct) == d)
     ip.state.events.append(('encrypt_gcm', (key, iv, aad, data), {}))
@@ -351,7 +355,8 @@ def _decrypt_gcm(ip, key, iv, aad, data):
         ip.ctx.raise_exc('InvalidTag', 'authentication failed')
     pt = DEC(k, i, a, d)
     ip.ctx.assume(d == ENC(k, i, a, pt))
-    ip.ctx.assume(z3.Length(d) == z3.Length(pt) + 16)
+    ops.set_len_term(pt, ops.blen(d) - 16)
+    ip.ctx.assume(ops.blen(d) >= 16)
     ip.state.events.append(('decrypt_gcm_ok', (key, iv, aad, data), {}))
     return Sym(pt, 'bytes')
 
@@ -447,7 +452,7 @@ def _priv_sign(ip, self, data):
     d = ops.term(data)
     nonce = ip.ctx.fresh('sig_nonce', IntSort)
     s = SIG(k, d, nonce)
-    ip.ctx.assume(z3.And(SIGNED(k, d), SIG_OK(k, s, d), z3.Length(s) >= 8, z3.Length(s) <= 72))
+    ip.ctx.assume(z3.And(SIGNED(k, d), SIG_OK(k, s, d), ops.blen(s) >= 8, ops.blen(s) <= 72))
     ip.state.events.append(('sign', (self.attrs['kid'], data), {}))
     return Sym(s, 'bytes')
 
